@@ -270,3 +270,20 @@ func nondetIPv4(tag string) (net.IP, [4]byte) {
 	}
 	return net.IP(b), want
 }
+
+func specIPEq(got []byte, want []byte) bool {
+	// the destination may be given in the 4-byte or the 16-byte (IPv4-mapped) form
+	if len(got) == 4 {
+		return got[0] == want[0] && got[1] == want[1] && got[2] == want[2] && got[3] == want[3]
+	}
+	if len(got) == 16 {
+		for i := 0; i < 10; i++ {
+			if got[i] != 0 {
+				return false
+			}
+		}
+		return got[10] == 0xff && got[11] == 0xff && got[12] == want[0] && got[13] == want[1] && got[14] == want[2] && got[15] == want[3]
+	}
+	return false
+}
+
